@@ -348,6 +348,16 @@ var Schemas = []Schema{
 	{"expr-ctx-composite-two-dots", func(g *G) *Change {
 		return &Change{Kind: "stmts", Meta: mv("v", "identifier", "x", "expression"), Lines: lines(" «v» := Tgt{‹1:elts›, «x», ‹2:elts›}", "-use(«v»)", "+use(«v», «x»)")}
 	}},
+	// an elision on a context line whose run a later '+'-only elision reproduces a second time
+	{"stmt-ctx-dots-reused-on-plus", func(g *G) *Change {
+		return &Change{Kind: "stmts", Meta: mv("v", "identifier", "x", "expression"), Lines: lines(" «v» := tgtDo(«x», ‹1:args›)", "+audit(«x», ‹1:args›)")}
+	}},
+	{"stmt-ctx-composite-dots-reused-on-plus", func(g *G) *Change {
+		return &Change{Kind: "stmts", Meta: mv("v", "identifier"), Lines: lines(" «v» := []tgtT{‹1:elts›}", "+fallback := []tgtT{‹1:elts›, «v»}")}
+	}},
+	{"stmt-ctx-dots-reused-twice-on-plus", func(g *G) *Change {
+		return &Change{Kind: "stmts", Meta: mv("x", "expression"), Lines: lines("+before(‹1:args›)", " tgtCall(«x», ‹1:args›)", "+after(‹1:args›, «x»)")}
+	}},
 	// expression patterns of fixed shape
 	{"expr-ident-rename", func(g *G) *Change {
 		return &Change{Kind: "expr", Lines: lines("-oldName", "+newName")}
